@@ -1,4 +1,5 @@
 import typing as tp
+from concurrent.futures import BrokenExecutor
 from concurrent.futures import ProcessPoolExecutor
 from concurrent.futures import ThreadPoolExecutor
 
@@ -440,6 +441,9 @@ class Batch(ContainerOperand, StoreClientMixin):
                 for label, future in zip(labels, futures):
                     try:
                         container = future.result()
+                    except BrokenExecutor:
+                        # the pool failed, not the function: never silence
+                        raise
                     except exception:
                         continue
                     yield label, container
